@@ -28,7 +28,11 @@ func hRoute17(tag string, isRoot bool) *Route {
 	zero := model.Duration(0)
 	m, _ := labels.NewMatcher(labels.MatchEqual, "job", "a")
 	// one shape per node: a valid one or one of the defects the validators must catch
-	switch vfChoice(tag+".shape", 18) {
+	nShapes := 18
+	if tag == "grandchild" {
+		nShapes = 8 // (the first shapes only: three full menus are more than a thorough run can finish)
+	}
+	switch vfChoice(tag+".shape", nShapes) {
 	case 0: // plain valid
 	case 1:
 		r.GroupByStr, r.GroupInterval, r.RepeatInterval = []string{"alertname", "cluster"}, &gi, &ri
